@@ -114,7 +114,7 @@ class HealSparseFits(object):
                     dtype = np.dtype('i1')
                 return dtype
             else:
-                return hdu.data[0: 1].dtype
+                return _as_ndarray(hdu.data[0: 1]).dtype
 
     def read_ext_data(self, extension, row_range=None, col_range=None):
         """
@@ -149,13 +149,13 @@ class HealSparseFits(object):
             # the full thing.
             hdu = self.fits_object[extension]
             if row_range is None:
-                return self._get_astropy_data(extension).view(np.ndarray)
+                return _as_ndarray(self._get_astropy_data(extension))
             elif col_range is None:
                 try:
                     return hdu.section[slice(row_range[0], row_range[1])].view(np.ndarray)
                 except (AttributeError, ValueError):
-                    return self._get_astropy_data(extension)[
-                        slice(row_range[0], row_range[1])].view(np.ndarray)
+                    return _as_ndarray(self._get_astropy_data(extension)[
+                        slice(row_range[0], row_range[1])])
             else:
                 try:
                     return hdu.section[slice(col_range[0], col_range[1]),
@@ -237,6 +237,37 @@ class HealSparseFits(object):
 
     def __exit__(self, exception_type, exception_value, traceback):
         self.fits_object.close()
+
+
+def _as_ndarray(data):
+    """
+    View data read by astropy.io.fits as a plain numpy array.
+
+    The raw storage of a FITS table differs from the numpy type for unsigned
+    integer columns (stored as signed integers with TZERO) and boolean columns
+    (stored as the characters 'T'/'F'); such tables are converted column by
+    column.  Everything else is a zero-copy view.
+
+    Parameters
+    ----------
+    data : `np.ndarray` or `astropy.io.fits.FITS_rec`
+
+    Returns
+    -------
+    array : `np.ndarray`
+    """
+    raw = data.view(np.ndarray)
+    if raw.dtype.fields is None or not isinstance(data, fits.FITS_rec):
+        return raw
+
+    col_dtypes = [(name, data[name].dtype) for name in raw.dtype.names]
+    if all(raw.dtype[name] == dtype for name, dtype in col_dtypes):
+        return raw
+
+    array = np.zeros(raw.shape, dtype=col_dtypes)
+    for name, _ in col_dtypes:
+        array[name] = data[name]
+    return array
 
 
 def _write_filename(filename, c_hdr, s_hdr, cov_index_map, sparse_map,
